@@ -15,7 +15,7 @@ def reject_case(draw):
               "period": draw(st.sampled_from([0.5, 1.0, 2.0])), "times": draw(st.sampled_from([0, 0, 0, 1, 2])),
               "deferred": draw(st.booleans())} for _ in range(cap)]
   rejected = {"kind": draw(st.sampled_from(["fifo", "lifo"])),
-              "period": draw(st.sampled_from([1e-6, 0.25, 0.5, 5.0])),
+              "period": draw(st.sampled_from([0, 0.0, 1e-6, 0.25, 0.5, 5.0])),   # 0: a back-to-back burst
               "times": draw(st.sampled_from([0, 1, 3])),
               "deferred": draw(st.sampled_from([False, False, True]))}
   return {"cap": cap, "tracked": tracked, "rejected": rejected,
@@ -31,7 +31,7 @@ class C31(Prop):
           "subclass that declares QUEUE_SIZE 1..5 (its limit of tracked timed sources; thorough adds "
           "the shipped limit of 500) is filled to that limit with tracked sources (periods 0.5-2.0, "
           "deferred or not, endless or 1-2 shots), then - at once or after 1.25 / 5 s, when the "
-          "finite ones have finished but still occupy their slots - 1-2 further timed posts are attempted (fifo/lifo, period 1e-6..5, "
+          "finite ones have finished but still occupy their slots - 1-2 further timed posts are attempted (fifo/lifo, period 0 (a back-to-back burst), 1e-6..5, "
           "times 0/1/3, deferred or not) under generated schedules, and time runs on for several "
           "periods. Oracle: every further attempt raises ActiveObjectOutOfPostedEventResources; the "
           "rejected source's event is never posted (no post invocation carrying its id, at any "
